@@ -134,9 +134,13 @@ func aggElems(a []string) (out []entities.InfoElementWithValue, v6 bool, err err
 			return nil, false, e
 		}
 	}
-	tcp, err := unhex(a[6])
-	if err != nil {
-		return nil, false, err
+	var tcp []byte
+	noTCP := a[6] == aggAbsent // the record's template has no tcpState (a configured non-stats element): outside the model
+	if !noTCP {
+		tcp, err = unhex(a[6])
+		if err != nil {
+			return nil, false, err
+		}
 	}
 	stats := strings.Split(a[7], ",")
 	if len(stats) != len(statsElems) {
@@ -168,7 +172,9 @@ func aggElems(a []string) (out []entities.InfoElementWithValue, v6 bool, err err
 	es = append(es, entities.NewDateTimeSecondsInfoElement(regIE("flowStartSeconds"), uint32(start)))
 	es = append(es, entities.NewDateTimeSecondsInfoElement(regIE("flowEndSeconds"), uint32(end)))
 	es = append(es, entities.NewUnsigned8InfoElement(regIE("flowEndReason"), uint8(reason)))
-	es = append(es, entities.NewStringInfoElement(regIE("tcpState"), string(tcp)))
+	if !noTCP {
+		es = append(es, entities.NewStringInfoElement(regIE("tcpState"), string(tcp)))
+	}
 	for i, name := range statsElems {
 		v, err := strconv.ParseUint(stats[i], 10, 64)
 		if err != nil {
@@ -227,6 +233,10 @@ func aggDump(rec *intermediate.AggregationFlowRecord) string {
 	ft, _, _ := r.GetInfoElementWithValue("flowType")
 	reason, _, _ := r.GetInfoElementWithValue("flowEndReason")
 	tcp, _, _ := r.GetInfoElementWithValue("tcpState")
+	tcpTok := aggAbsent
+	if tcp != nil {
+		tcpTok = hexs([]byte(tcp.GetStringValue()))
+	}
 	ready, retries, filled, _ := rec.VerifFlags()
 	b := func(x bool) string {
 		if x {
@@ -235,7 +245,7 @@ func aggDump(rec *intermediate.AggregationFlowRecord) string {
 		return "0"
 	}
 	return fmt.Sprintf("%d/%s/%s/%s/%d/%s/%s/%s/%s/%s/%s/%s/%s/%s/%s/%d/%s", ft.GetUnsigned8Value(), strings.Join(corr, ","),
-		u32of(r, "flowStartSeconds"), u32of(r, "flowEndSeconds"), reason.GetUnsigned8Value(), hexs([]byte(tcp.GetStringValue())),
+		u32of(r, "flowStartSeconds"), u32of(r, "flowEndSeconds"), reason.GetUnsigned8Value(), tcpTok,
 		u64s(r, statsElems), u64s(r, withSuffix(statsElems, "FromSourceNode")), u64s(r, withSuffix(statsElems, "FromDestinationNode")),
 		u32of(r, "flowEndSecondsFromSourceNode"), u32of(r, "flowEndSecondsFromDestinationNode"),
 		u64s(r, []string{"throughput", "reverseThroughput"}), u64s(r, []string{"throughputFromSourceNode", "reverseThroughputFromSourceNode"}),
